@@ -165,11 +165,28 @@ def example_matches(desc: dict, example: dict) -> bool:
 ON_WRITE = None  # optional callback(ex_id) right before every write_example
 
 
+class SharedMeta:
+    """custom_metadata passed through ONE caller-owned dict object that is
+    updated in place to ``value`` right before the run is written."""
+
+    def __init__(self, obj: dict, value: dict):
+        self.obj = obj
+        self.value = value
+
+    def apply(self) -> dict:
+        import copy
+        self.obj.clear()
+        self.obj.update(copy.deepcopy(self.value))
+        return self.obj
+
+
 def write_runs(filler_ctx, desc: dict, runs: list, delay_s: float = 0.0) -> None:
     """runs: list of [split, [ids...], metadata-or-None]"""
     for run in runs:
         split, ids, meta = run[0], run[1], run[2]
         bad_at = run[3] if len(run) > 3 else None
+        if isinstance(meta, SharedMeta):
+            meta = meta.apply()
         for pos, ex_id in enumerate(ids):
             if bad_at is not None and pos == bad_at % max(len(ids), 1):
                 attempt_rejected_write(filler_ctx, desc, split, meta)
